@@ -42,24 +42,36 @@ fn collect_tagged_keys(
 ) -> Result<(), Error> {
     match node {
         YamlValue::Mapping(map) => {
-            for (key, value) in map {
-                if let YamlValue::Tagged(tag) = &key {
-                    let key_str = tag.as_ref().tag.to_string();
-                    if key_str == "!sd" {
-                        let new_val = tag
-                            .as_ref()
+            // rebuild the mapping with plain keys: a tagged key is reported and its tag dropped
+            let mut untagged = serde_yaml::Mapping::new();
+            for (key, mut value) in std::mem::take(map) {
+                match key {
+                    YamlValue::Tagged(tag) if tag.tag == "!sd" => {
+                        let key_str = tag
                             .value
                             .as_str()
-                            .ok_or(Error::YamlInvalidSDTag(key_str))?;
-                        let full_path = build_full_path(path, new_val);
-                        paths.push(full_path);
+                            .ok_or(Error::YamlInvalidSDTag(tag.tag.to_string()))?
+                            .to_string();
+                        // tags nested below this key come first: the issuer needs enclosed
+                        // claims before the claims that enclose them
+                        path.push_back(key_str.clone());
+                        collect_tagged_keys(&mut value, path, paths)?;
+                        path.pop_back();
+                        paths.push(build_full_path(path, &key_str));
+                        untagged.insert(YamlValue::String(key_str), value);
                     }
-                } else if let YamlValue::String(key) = &key {
-                    path.push_back(key.to_string());
-                    collect_tagged_keys(value, path, paths)?;
-                    path.pop_back();
+                    YamlValue::String(key_str) => {
+                        path.push_back(key_str.clone());
+                        collect_tagged_keys(&mut value, path, paths)?;
+                        path.pop_back();
+                        untagged.insert(YamlValue::String(key_str), value);
+                    }
+                    key => {
+                        untagged.insert(key, value);
+                    }
                 }
             }
+            *map = untagged;
         }
         YamlValue::Sequence(seq) => {
             for (index, value) in seq.iter_mut().enumerate() {
